@@ -44,6 +44,9 @@ def service_history(job):
     import numpy as _numpy
     _random.seed(seed)
     _numpy.random.seed(seed % 2 ** 32)
+    # (see walletdrv: the service layer's provider shuffling gets a generator of its own)
+    import bitcoinlib.services.services as _services
+    _services.random = random.Random(seed)
     scheme, wt = kind
     rng = random.Random(seed)
     d = tempfile.mkdtemp(prefix='ws_', dir=os.environ['BCL_DATA_DIR'])
